@@ -262,12 +262,22 @@ META = {
                 'variable of it (C02_find_min_lm_stationary), re-running it on every block at every variable (C02_relm_stationary); hence the explicit duality '
                 'gap from the recomputed multipliers alone (C02_relm_gap_bound, C02_relm_optimal) and, under the exit test of splitBlocks (no multiplier below '
                 '-tau), obj - optimum <= sum_i (scl_i*tau*deg_i)^2/(4 w_i) (C02_split_blocks_exit_kkt); for every history C02_solve_near_optimal_history_partial. '
-                'The boolean form (VpscKktB.kkt_stateb) is evaluated by the extracted model on every state it visits (evidence key model_stationarity).',
+                'The boolean form (VpscKktB.kkt_stateb) is evaluated by the extracted model on every state it visits (evidence key model_stationarity). '
+                'Fourth round (Vpsc/VpscFresh.v, VpscMinLM.v): the two state hypotheses are invariants - in every reachable state Blocks::m_blocks lists the '
+                'undeleted block of every variable and the lm vector has one entry per constraint (C02_reachable_live_lm); moveBlocks makes AB/AD of every owning '
+                'block the sums for the current offsets/desired positions and every later step of satisfy keeps that (C02_move_blocks_stats, C02_satisfy_step_stats), '
+                'so every returned state is all_fresh (C02_solve_return_fresh) and C02_solve_near_optimal_history holds for EVERY history with no premise on the '
+                'returned state. findMinLM returns the minimum multiplier over the active inequalities of its block (C02_find_min_lm_min); a splitBlocks that '
+                'splits nothing leaves a state whose STORED multipliers are stationary, >= -1e-4 on active inequalities, with obj - optimum <= '
+                'sum_i (scl_i*1e-4*deg_i)^2/(4 w_i) (C02_split_blocks_quiet_kkt); an in-loop satisfy() with splitCnt = 0 does not merge afterwards (its input '
+                'already meets the loop exit condition and moveBlocks on up-to-date statistics moves nothing), hence C02_solve_exit_guarantee: solve() either '
+                'leaves its loop through the test and then the returned state carries that KKT package, or it gave up after exactly MAXTRIES = 100 in-loop passes. '
+                'All of this also for histories that change Variable::weight between solves (Vpsc/VpscStatsW.v: the weight-independent statistics invariant '
+                'all_pos; C02_solve_return_fresh_weight_history, C02_solve_near_optimal_weight_history, C02_solve_exit_guarantee_weight_history).',
         'design_ref': 'DESIGN.md 5.2'},
     'level_note': 'Trusted: Coq kernel; extraction + OCaml driver (its optimum-proposing helpers are unverified but every proposal passes the proved kkt_ok); C++ harness; '
-                  'exact-rational model of binary64. Not proved: that solve() exits with every recomputed multiplier >= -1e-4 (its last satisfy() may merge after the '
-                  'splitBlocks test, and it gives up after 100 passes), and two state facts C02_solve_near_optimal_history_partial takes as hypotheses (block statistics '
-                  'AB/AD are the sums over the block after satisfy(); the lm vector keeps its length) - both evaluated on every visited model state; termination; '
+                  'exact-rational model of binary64. Not proved: that solve() never gives up after MAXTRIES = 100 passes (in that case only feasibility of the returned '
+                  'state is guaranteed: C02_solve_exit_guarantee names the two exits); termination; '
                   'variable-order independence is checked on permuted twins and follows from uniqueness only informally (constraint-order independence is proved).',
     'technique': 'Coq proof of a certificate checker (certifying-algorithm validation of every real solve() result) + refutation witness + extracted-model correspondence',
 }
